@@ -49,7 +49,7 @@ Lemma next_fails {A} nm cls (k : text -> option A) q tail :
 Proof.
   intros N P. pose proof (proper_suffix_AZ q nm P N) as Q.
   rewrite skipws_name by exact Q. apply match_field_wrong_name; try assumption.
-  apply neq_by_length. apply proper_suffix_length in P. lia.
+  apply neq_by_length. apply proper_suffix_length in P. clear - P. lia.
 Qed.
 (** ... and succeeds, as the field itself does, after separator whitespace *)
 Lemma next_after_sep {A} nm cls (k : text -> option A) s tail :
@@ -139,8 +139,8 @@ Section V1Match.
         * (* q is a proper suffix of COMPRESSION: it cannot be OLDFILEUID, whose last letter differs *)
           intro E'. destruct P as [p [_ P]]. subst q. apply (f_equal (@rev N)) in P. rewrite rev_app_distr in P.
           vm_compute in P. discriminate P.
-        * apply neq_by_length. vm_compute in L. change (List.length NM_OLDFILEUID) with 10%nat. lia.
-      + apply neq_by_length. destruct comp; vm_compute in L; change (List.length NM_COMPRESSION) with 11%nat; lia.
+        * apply neq_by_length. change (List.length NM_OLDFILEUID) with 10%nat in *. clear - L. lia.
+      + apply neq_by_length. destruct comp; [change (List.length NM_COMPRESSION) with 11%nat in * | change (List.length NM_OLDFILEUID) with 10%nat in *; change (List.length NM_COMPRESSION) with 11%nat]; clear - L; lia.
   Qed.
 
   Ltac std_step lem :=
@@ -189,7 +189,7 @@ Section V1Match.
     - intros q P. apply next_fails; [reflexivity|exact P].
   Qed.
 
-  (** with leading whitespace [ind] (the pattern's own \s*) the search succeeds at the first position *)
+  (** with leading whitespace [ind] (the pattern starts with optional whitespace) the search succeeds at the first position *)
   Lemma search_v1_T1 (comp : bool) ind : forallb is_space ind = true ->
     search_v1 (ind ++ T1 comp) = Some (oh, (da, (ve, (se, (en, (ch, ((if comp then Some co else None), (ol, (ne, rest))))))))).
   Proof.
